@@ -1,0 +1,115 @@
+//go:build verif
+
+// Contracts for the deductive verifier in /verif (govc). Comment-only file.
+package xmlWriter
+
+// ---------------------------------------------------------------- XML writer (C18)
+//
+// Ghost emission log of the buffer as in package export: loglen / logkind (0 string, 1 rune) / logint / logstr.
+
+// xmlDecodes: the piece is character data / attribute-value text that can neither open nor close markup and
+// decodes to exactly the rune r: the rune itself unless it is one of ' " < > &, otherwise its entity.
+//@ predicate xmlDecodes(kind int, iv int, sv string, r rune) = \
+//@     (kind == 1 && iv == r && r != '\'' && r != '"' && r != '<' && r != '>' && r != '&') \
+//@  || (kind == 0 && ((sv == "&apos;" && r == '\'') || (sv == "&quot;" && r == '"') || (sv == "&lt;" && r == '<') || (sv == "&gt;" && r == '>') || (sv == "&amp;" && r == '&')))
+// xmlname: the string is an XML Name (ASCII subset of the production; conservative) and can be written raw as a tag or attribute name
+//@ predicate xmlNameRune(r rune, p int) = r == '_' || r == ':' || (r >= 'a' && r <= 'z') || (r >= 'A' && r <= 'Z') || (p > 0 && (r == '-' || r == '.' || (r >= '0' && r <= '9')))
+//@ predicate xmlname(s string) = runecount(s) > 0 && (forall p in 0..runecount(s) :: xmlNameRune(runeat(s, p), p))
+//@ predicate logKept(b *bytes.Buffer, n int) = forall p in 0..n :: logkind(b, p) == old(logkind(b, p)) && logint(b, p) == old(logint(b, p)) && logstr(b, p) == old(logstr(b, p))
+//@ predicate escaped(b *bytes.Buffer, from int, s string) = forall p in 0..runecount(s) :: xmlDecodes(logkind(b, from+p), logint(b, from+p), logstr(b, from+p), runeat(s, p))
+//@ predicate lit(b *bytes.Buffer, i int, s string) = logkind(b, i) == 0 && logstr(b, i) == s
+
+//@ func (w *XMLWriter) writeEsc
+//@   property C18
+//@   safety C18
+//@   requires w.b != nil
+//@   ensures[length] loglen(w.b) == old(loglen(w.b)) + runecount(s)
+//@   ensures[runes] escaped(w.b, old(loglen(w.b)), s)
+//@   ensures[prefix] logKept(w.b, old(loglen(w.b))) && w.b == old(w.b)
+//@   assigns log(w.b)
+//@   loop 1 invariant 0 <= rangeidx && rangeidx <= runecount(s) && loglen(w.b) == old(loglen(w.b)) + rangeidx
+//@   loop 1 invariant forall p in 0..rangeidx :: xmlDecodes(logkind(w.b, old(loglen(w.b))+p), logint(w.b, old(loglen(w.b))+p), logstr(w.b, old(loglen(w.b))+p), runeat(s, p))
+//@   loop 1 invariant logKept(w.b, old(loglen(w.b)))
+
+//@ func (w *XMLWriter) checkOpenTag
+//@   property C18
+//@   safety C18
+//@   requires w.b != nil
+//@   ensures !w.tagIsOpen && logKept(w.b, old(loglen(w.b)))
+//@   ensures old(w.tagIsOpen) ==> loglen(w.b) == old(loglen(w.b))+1 && logkind(w.b, old(loglen(w.b))) == 1 && logint(w.b, old(loglen(w.b))) == '>'
+//@   ensures !old(w.tagIsOpen) ==> loglen(w.b) == old(loglen(w.b))
+//@   assigns log(w.b), w.tagIsOpen
+
+// layout helpers write only tabs / a line break and never touch the element stack
+//@ predicate layoutOnly(b *bytes.Buffer, from int, to int) = forall p in from..to :: lit(b, p, "\t") || (logkind(b, p) == 1 && (logint(b, p) == '\n' || logint(b, p) == '>'))
+
+//@ func (w *XMLWriter) checkIndent
+//@   property C18
+//@   safety C18
+//@   requires w.b != nil
+//@   ensures w.inLine && loglen(w.b) >= old(loglen(w.b)) && logKept(w.b, old(loglen(w.b))) && layoutOnly(w.b, old(loglen(w.b)), loglen(w.b))
+//@   ensures old(w.inLine) ==> loglen(w.b) == old(loglen(w.b))
+//@   assigns log(w.b), w.inLine
+//@   loop 1 invariant loglen(w.b) >= old(loglen(w.b)) && logKept(w.b, old(loglen(w.b))) && layoutOnly(w.b, old(loglen(w.b)), loglen(w.b)) && !w.inLine && w.b == old(w.b)
+
+//@ func (w *XMLWriter) newLine
+//@   property C18
+//@   safety C18
+//@   requires w.b != nil
+//@   ensures !w.inLine && loglen(w.b) >= old(loglen(w.b)) && logKept(w.b, old(loglen(w.b))) && layoutOnly(w.b, old(loglen(w.b)), loglen(w.b))
+//@   assigns log(w.b), w.inLine
+
+// write: raw markup written by the writer itself (never data): closes a pending start tag, indents, then the string
+//@ func (w *XMLWriter) write
+//@   property C18
+//@   safety C18
+//@   requires w.b != nil
+//@   ensures !w.tagIsOpen && w.inLine && loglen(w.b) >= old(loglen(w.b))+1 && lit(w.b, loglen(w.b)-1, s) \
+//@        && logKept(w.b, old(loglen(w.b))) && layoutOnly(w.b, old(loglen(w.b)), loglen(w.b)-1)
+//@   ensures !old(w.tagIsOpen) && old(w.inLine) ==> loglen(w.b) == old(loglen(w.b))+1
+//@   assigns log(w.b), w.inLine, w.tagIsOpen
+
+// Attr: inside an open start tag, writes  ' ' key '="' escaped(value) '"'  and nothing else; the key is written raw and
+// therefore has to be an XML name.
+//@ func (w *XMLWriter) Attr
+//@   property C18
+//@   safety C18
+//@   requires w.b != nil && xmlname(key)
+//@   ensures[open] old(w.tagIsOpen) ==> loglen(w.b) == old(loglen(w.b)) + runecount(value) + 4 \
+//@        && lit(w.b, old(loglen(w.b)), " ") && lit(w.b, old(loglen(w.b))+1, key) && lit(w.b, old(loglen(w.b))+2, "=\"") \
+//@        && escaped(w.b, old(loglen(w.b))+3, value) && lit(w.b, loglen(w.b)-1, "\"")
+//@   ensures[closed] !old(w.tagIsOpen) ==> loglen(w.b) == old(loglen(w.b))
+//@   ensures[state] result == w && w.tagIsOpen == old(w.tagIsOpen) && len(w.open) == old(len(w.open)) && logKept(w.b, old(loglen(w.b)))
+//@   assigns log(w.b)
+
+// Write: character data, fully escaped, after closing a pending start tag.
+//@ func (w *XMLWriter) Write
+//@   property C18
+//@   safety C18
+//@   requires w.b != nil
+//@   ensures[text] escaped(w.b, loglen(w.b)-runecount(s), s) && loglen(w.b) >= old(loglen(w.b)) + runecount(s) && logKept(w.b, old(loglen(w.b)))
+//@   ensures[state] result == w && !w.tagIsOpen && len(w.open) == old(len(w.open))
+//@   ensures[markup-free] layoutOnly(w.b, old(loglen(w.b)), loglen(w.b)-runecount(s))
+//@   assigns log(w.b), w.inLine, w.tagIsOpen
+
+//@ func (w *XMLWriter) Open
+//@   property C18
+//@   safety C18
+//@   requires w.b != nil && xmlname(tag)
+//@   ensures[state] result == w && w.tagIsOpen && len(w.open) == old(len(w.open))+1 && w.open[len(w.open)-1] == tag
+//@   ensures[stack] forall k in 0..old(len(w.open)) :: w.open[k] == old(w.open[k])
+//@   ensures[pieces] lit(w.b, loglen(w.b)-2, "<") && lit(w.b, loglen(w.b)-1, tag) && loglen(w.b) >= old(loglen(w.b))+2 && logKept(w.b, old(loglen(w.b))) \
+//@        && layoutOnly(w.b, old(loglen(w.b)), loglen(w.b)-2)
+//@   ensures[same] w.b == old(w.b)
+//@   assigns log(w.b), w.inLine, w.tagIsOpen, w.depth, w.open, w.open[*]
+
+//@ func (w *XMLWriter) Close
+//@   property C18
+//@   safety C18
+//@   requires w.b != nil && len(w.open) > 0
+//@   ensures[state] result == w && !w.tagIsOpen
+//@   ensures[stack] len(w.open) == old(len(w.open))-1 && (forall k in 0..len(w.open) :: w.open[k] == old(w.open[k]))
+//@   ensures[short] old(w.tagIsOpen) && !w.avoidShort ==> lit(w.b, old(loglen(w.b)), "/>")
+//@   ensures[endtag] !(old(w.tagIsOpen) && !w.avoidShort) ==> exists p in old(loglen(w.b))..loglen(w.b)-2 :: lit(w.b, p, "</") && lit(w.b, p+1, old(w.open[len(w.open)-1])) && lit(w.b, p+2, ">")
+//@   ensures[prefix] logKept(w.b, old(loglen(w.b))) && w.b == old(w.b)
+//@   assigns log(w.b), w.inLine, w.tagIsOpen, w.depth, w.open
